@@ -70,6 +70,17 @@ class Hist:
         if chap:
             attrs.append((3, R.rand_bytes(rng, 17)))
         attrs += extra if extra is not None else [R.rand_attr(rng) for _ in range(rng.randrange(0, 3))]
+        idn = ident if ident is not None else 0
+        if code == 4 and idn % 3 == 0:
+            # what an accounting log line is made from: status type and terminate cause around the ends of their name tables, addresses
+            # and counters of the right and of odd lengths (chosen from the identifier, not from the random stream)
+            vals = [0, 1, 2, 3, 7, 8, 14, 15, 16, 17, 18, 19, 20, 255, 0xffffffff]
+            attrs.append((40, vals[(idn // 3) % len(vals)].to_bytes(4, "big")))
+            attrs.append((49, vals[(idn // 7) % len(vals)].to_bytes(4, "big")))
+            if idn % 2:
+                attrs.append((4, bytes([10, 0, 0, 1][: 1 + idn % 5])))
+                attrs.append((55, bytes([1, 2, 3, 4, 5][: idn % 6])))
+                attrs.append((44, bytes([0x41, 0x0a, 0x42][: idn % 4])))
         while sum(len(v) + 2 for t, v in attrs if v is not None) > 3900:
             attrs.pop()
         if with_ma if with_ma is not None else rng.random() < 0.6:
@@ -517,6 +528,28 @@ def tcp_history(exe, rng, idx):
         if rng.random() < 0.3:
             h.send("writer " + rng.choice(names))
     return h.finish(kind="tcpconn", nconn=nconn)
+
+
+def acctlog_history(exe, rng, idx):
+    """a realm that answers Accounting-Requests itself and logs each of them (AccountingLog): status type and terminate cause at and
+    beyond the ends of their name tables, addresses, time stamps and session identifiers of the right and of odd lengths"""
+    cfg = W.rand_cfg(rng, rewrites=False, ttl=False, nclients=1, nservers=1)
+    cfg.clients[0].update(rwin=None, rwout=None, rwuser=None, reqma=False, reqmap=False)
+    cfg.opts["verifyeap"] = 0
+    cfg.realms = [dict(name=b"ab", srv=None, acc=None, msg=None, accresp=True), dict(name=b"*", srv=None, acc=None, msg=None, accresp=True)]
+    h = Hist(exe, rng, cfg)
+    if not h.alive:
+        return h.finish(kind="cfg-crash")
+    h.client(cfg.clients[0])
+    for ident in range(idx % 3, 64, 3 if idx % 2 else 1):
+        if h.s.dead:
+            break
+        h.rq(0, h.make_request(0, code=4, user=rng.choice([b"u@ab", b"u@x", b"u"]), ident=ident, extra=[]))
+        h.tag("reply-queued")
+        if rng.random() < 0.3:
+            h.send("pop 0")
+    h.send("pop 0")
+    return h.finish(kind="acctlog")
 
 
 def loop_cancel_history(exe, rng, idx):
